@@ -923,7 +923,7 @@ func (c *Compiler) linkRecursiveCode(ctx *compileContext) {
 		totalLength := code.TotalLength()
 
 		// Idx, ElemIdx, Length must set after call TotalLength
-		lastCode.Idx = uint32((totalLength + 1) * uintptrSize)
+		lastCode.Idx = uint32(totalLength * uintptrSize)
 		lastCode.ElemIdx = lastCode.Idx + uintptrSize
 		lastCode.Length = lastCode.Idx + 2*uintptrSize
 
